@@ -281,6 +281,11 @@ func Families(tier string) []Family {
 			c.Opts = []OptCfg{o, opt("bool", "other", 1, "ot"), opt("bool", "co", 2)}
 			f.Defs = append(f.Defs, Def{Cfg: c, Tokens: Ts("--opt=x", "--alt=y", "--ot", "cmd", "--co", "x"), L: 2,
 				Pres: [][]Tok{{}, Ts("--other"), Ts("--alt=z", "cmd", "--co")}})
+			// a two-pass program: the earlier Parse may also have happened before the help option was declared; an
+			// abbreviation that meant nothing then (--hel) means the help option now
+			ch := WithHelp(c, "help")
+			f.Defs = append(f.Defs, Def{Cfg: ch, Tokens: Ts("--opt=x", "--ot", "cmd", "--co", "--hel", "x"), L: 3,
+				Pres: [][]Tok{{}, Ts("cmd", "--hel"), Ts("--hel", "cmd", "--co")}})
 		}
 		// Called / CalledAs / Value read through the top-level object after a wrapper or the help command was selected
 		for mode := 0; mode < 2; mode++ {
@@ -418,6 +423,7 @@ func Families(tier string) []Family {
 			switch variant {
 			case 1:
 				rq.HasMsg, rq.ReqMsg = true, T("rq is needed: 100% (%s, %d)")
+				rq.ModLast = true // the message is handed over in a buffer the program reuses right away
 				ar.HasMsg, ar.ReqMsg = true, T("give --ar")
 			case 2:
 				rq.Env = T("VERIF_ENV_RQ")
